@@ -179,17 +179,19 @@ Print Assumptions C09_keys_hier_py_refuted.
    VerifGen.K5, tied to FieldDecl.ref_fields by C10): run on the encoding of the hierarchy, followed by
    metadatas.get(fname, {}) and __get_field_alias (K4), it yields KeyModel.alias_of of the class the
    hierarchy denotes.  mdf: the metadata mapping written in a declaration (any mapping whose "alias"
-   entry is the declared alias); extra: MRO entries without fields (object, mixins, a field-less Base);
-   the last hypothesis is discharged below for the two views the builder has of the class body. ---- *)
+   entry is the declared alias); rest: the MRO after the class itself (mro_of: it resolves names like
+   the hierarchy ls -- discharged below for single inheritance and for unrelated bases K(B, A); extra =
+   MRO entries without fields: object, mixins, a field-less Base); the last hypothesis is discharged
+   below for the two views the builder has of the class body. ---- *)
 Theorem C09_alias_from_sources :
   forall (mdf: fld -> kv), (forall f, k_dict_get (mdf f) (KStr "alias") = Ok (enc_ostr (f_meta f))) ->
-  forall (ls: list level) (l: level) (extra: list pyclass) (c0: pyclass) nsd ownf discr,
-  Forall fieldless extra ->
+  forall (ls: list level) (l: level) (rest: list pyclass) (c0: pyclass) nsd ownf discr,
+  mro_of mdf rest ls ->
   sd_get nsd "__dataclass_fields__" = None -> ~ In "__dataclass_fields__" (map dname (l_decls l)) ->
   (forall n f i, lookup_decl n (rev (l_decls l)) = Some (f, i) ->
      alias_md (own_result nsd ownf n) = Ok (enc_ostr (f_meta f))) ->
   exists d,
-    dataclass_fields (KTuple (enc_class c0 :: map enc_class (anc mdf (rev ls) ++ extra)))
+    dataclass_fields (KTuple (enc_class c0 :: map enc_class rest))
                      (KList (map KStr (map dname (l_decls l)))) (enc_namespace nsd ownf)
     = Ok (KDict (enc_sd d))
     /\ forall f, In f (effective (ls ++ [l])) ->
@@ -201,6 +203,18 @@ Theorem C09_alias_from_sources :
             = Ok (enc_ostr (alias_of (builder_class_of (ls ++ [l]) discr) f)).
 Proof. exact alias_from_sources. Qed.
 Print Assumptions C09_alias_from_sources.
+
+(* MRO of single inheritance: each ancestor's __dataclass_fields__ is cumulative *)
+Theorem C09_mro_chain :
+  forall (mdf: fld -> kv) ls extra, Forall fieldless extra -> mro_of mdf (anc mdf (rev ls) ++ extra) ls.
+Proof. exact mro_chain. Qed.
+Print Assumptions C09_mro_chain.
+
+(* MRO of K(B, A) with unrelated bases: nearest first, each with the fields of its own body *)
+Theorem C09_mro_roots :
+  forall (mdf: fld -> kv) ls extra, Forall fieldless extra -> mro_of mdf (roots mdf ls ++ extra) ls.
+Proof. exact mro_roots. Qed.
+Print Assumptions C09_mro_roots.
 
 (* view (a): the class is finished (codecs; any compilation after @dataclass has run) *)
 Theorem C09_own_view_finished :
